@@ -43,6 +43,9 @@ func vfGenC18(t *rapid.T) vfCaseC18 {
 				{T: "OPEN", P: 0, Pflags: 3}, {T: "OPEN", P: 14, Pflags: 0x1b}}
 		}
 		nb := rapid.IntRange(3, 40).Draw(t, "nburst")
+		if rapid.IntRange(0, 5).Draw(t, "deep") == 0 {
+			nb = rapid.IntRange(66, 150).Draw(t, "nburstdeep") // more requests in flight than any fixed-size table a server might keep (seed F19)
+		}
 		woff, woff5 := 0, 0
 		for k := 0; k < nb; k++ {
 			r := vfGenReq(t, vfC18Kinds)
